@@ -223,8 +223,44 @@ theorem wait_seconds_target (env : Env) (state input ctx : Json) (entered : Rat)
   unfold waitTarget
   simp only [hs, this, if_true, Option.getD_some]
 
-/-- (iii) a Task with `TimeoutSeconds: n` whose worker does not answer strictly before the deadline — `n`
-seconds after the instant this attempt was entered — fails with `States.Timeout` (handed to its Retry / Catch
+/-- the Task's own deadline: `TimeoutSeconds: n` (no `TimeoutSecondsPath`) is `n` seconds after the entry … -/
+theorem own_deadline_seconds (state data ctx : Json) (entered : Rat) (n : Int)
+    (hnp : isTrue (fld state "TimeoutSecondsPath") = false) (hT : fld state "TimeoutSeconds" = some (.num n)) :
+    taskOwnDeadline state data ctx entered = .ok (some (entered + (n : Rat) * 1000)) := by
+  simp [taskOwnDeadline, hnp, taskDeadline, hT]
+
+/-- … `TimeoutSecondsPath: p` selecting the integer `n` in the state's **raw input** likewise (whatever
+`TimeoutSeconds` says), `true` counts as 1, any other value as 0 seconds, and a path that matches nothing is the
+runtime error -/
+theorem own_deadline_path (state data ctx : Json) (entered : Rat) (p : Str) (hne : p ≠ [])
+    (hP : fld state "TimeoutSecondsPath" = some (.str p)) :
+    (∀ n : Int, applyPath data ctx (some p) = .ok (.num n) →
+      taskOwnDeadline state data ctx entered = .ok (some (entered + (n : Rat) * 1000))) ∧
+    (applyPath data ctx (some p) = .ok (.bool true) → taskOwnDeadline state data ctx entered = .ok (some (entered + 1000))) ∧
+    (∀ v, applyPath data ctx (some p) = .ok v → (∀ n : Int, v ≠ .num n) → v ≠ .bool true →
+      taskOwnDeadline state data ctx entered = .ok (some entered)) ∧
+    (∀ e, applyPath data ctx (some p) = .error e → taskOwnDeadline state data ctx entered = .error e) := by
+  have ht : isTrue (fld state "TimeoutSecondsPath") = true := by
+    cases p with
+    | nil => exact absurd rfl hne
+    | cons c cs => simp [hP, isTrue, Json.truthy]
+  have hs : fldStr state "TimeoutSecondsPath" = some p := by
+    unfold fldStr; unfold fld at hP; rw [hP]
+  refine ⟨fun n hv => by simp [taskOwnDeadline, ht, hs, hv], fun hv => by simp [taskOwnDeadline, ht, hs, hv],
+    fun v hv h1 h2 => ?_, fun e hv => by simp [taskOwnDeadline, ht, hs, hv]⟩
+  cases v with
+  | num n => exact absurd rfl (h1 n)
+  | bool b => cases b with
+    | true => exact absurd rfl h2
+    | false => simp [taskOwnDeadline, ht, hs, hv]
+  | null => simp [taskOwnDeadline, ht, hs, hv]
+  | str x => simp [taskOwnDeadline, ht, hs, hv]
+  | arr x => simp [taskOwnDeadline, ht, hs, hv]
+  | obj x => simp [taskOwnDeadline, ht, hs, hv]
+
+/-- (iii) a Task whose own deadline is `n` seconds after the instant this attempt was entered (`hown`: by
+`TimeoutSeconds` or `TimeoutSecondsPath`, see `own_deadline_seconds` / `own_deadline_path`) and whose worker does not
+answer strictly before it fails with `States.Timeout` (handed to its Retry / Catch
 like any error), and `LambdaFunctionTimedOut` is filed at the deadline exactly: `n` seconds after the request.
 (`hD`: the execution's time limit, if there is one, is later than the Task's deadline; the other cases:
 `task_deadline_is_min`, `execution_timeout_exact_task`.) -/
@@ -234,7 +270,7 @@ theorem task_timeout_exact (env : Env) (fuel : Nat) (states : Json) (name fn : S
     (hr : rpcFunction ((fldStr state "Resource").getD []) = some fn)
     (hi : applyPath data ctx (pathArg state "InputPath") = .ok input)
     (hp : tmplOpt env input ctx (fld state "Parameters") = .ok params)
-    (hT : fld state "TimeoutSeconds" = some (.num n)) (hn : 0 ≤ (n : Rat) * 1000)
+    (hown : taskOwnDeadline state data ctx st.clock = .ok (some (st.clock + (n : Rat) * 1000))) (hn : 0 ≤ (n : Rat) * 1000)
     (hD : ∀ dl, env.deadline = some dl → st.clock + (n : Rat) * 1000 < dl)
     (hlate : ∀ d, env.delay fn params (bump st.counts (fn, params)).1 = some d →
       ¬ st.clock + d < st.clock + (n : Rat) * 1000) :
@@ -251,12 +287,10 @@ theorem task_timeout_exact (env : Env) (fuel : Nat) (states : Json) (name fn : S
   have h3 : (S "Task" = S "Fail") = False := by decide
   have h4 : (S "Task" = S "Wait") = False := by decide
   have h5 : (S "Task" = S "Choice") = False := by decide
-  have hd : taskDeadline state st.clock = some (st.clock + (n : Rat) * 1000) := by simp [taskDeadline, hT]
   have hm : rmax st.clock (st.clock + (n : Rat) * 1000) = st.clock + (n : Rat) * 1000 :=
     rmax_of_le (add_nonneg_ge _ _ hn)
-  have hlim : taskLimit (taskDeadline state st.clock) env.deadline st.clock =
+  have hlim : taskLimit (some (st.clock + (n : Rat) * 1000)) env.deadline st.clock =
       some { t := st.clock + (n : Rat) * 1000, task := true, exec := false } := by
-    rw [hd]
     cases hdl : env.deadline with
     | none => simp [taskLimit, hm]
     | some dl =>
@@ -270,7 +304,7 @@ theorem task_timeout_exact (env : Env) (fuel : Nat) (states : Json) (name fn : S
     cases hdl : env.delay fn params (bump st.counts (fn, params)).1 with
     | none => simp [taskArrival]
     | some d => simp [taskArrival, hlate d hdl]
-  refine ⟨by simp [runState, h, h1, h2, h3, h4, h5, hr, hi, hp, ha, hlim, taskOutcome, taskEv], ?_, ?_⟩
+  refine ⟨by simp [runState, h, h1, h2, h3, h4, h5, hr, hi, hp, hown, ha, hlim, taskOutcome, taskEv], ?_, ?_⟩
   · simp [St.taskCall, St.push, St.waitUntil, hm]
   · simp [St.taskCall, St.push, St.waitUntil, hm]
 
@@ -417,7 +451,7 @@ theorem execution_timeout_exact_wait (env : Env) (fuel : Nat) (states : Json) (n
 /-- (viii-b) a Task whose worker has not answered strictly before the limit in force `l`, that limit being (also) the
 execution's (`l.exec`: the execution's deadline is not after the Task's own): at the instant `l.t = max(D, now)` the
 execution's time-out is handed to `handle_error` — `LambdaFunctionTimedOut` is filed only if the Task's own deadline
-is that same instant (`l.task`), otherwise nothing but the request is -/
+(`own`: by `TimeoutSeconds` or `TimeoutSecondsPath`) is that same instant (`l.task`), otherwise nothing but the request is -/
 theorem execution_timeout_exact_task (env : Env) (fuel : Nat) (states : Json) (name fn : Str)
     (state data ctx input params : Json) (retries : Nat) (st : St) (D : Rat) (l : Limit)
     (h : stateType state = S "Task")
@@ -425,7 +459,8 @@ theorem execution_timeout_exact_task (env : Env) (fuel : Nat) (states : Json) (n
     (hi : applyPath data ctx (pathArg state "InputPath") = .ok input)
     (hp : tmplOpt env input ctx (fld state "Parameters") = .ok params)
     (hdl : env.deadline = some D)
-    (hl : taskLimit (taskDeadline state st.clock) (some D) st.clock = some l) (hx : l.exec = true)
+    (own : Option Rat) (hown : taskOwnDeadline state data ctx st.clock = .ok own)
+    (hl : taskLimit own (some D) st.clock = some l) (hx : l.exec = true)
     (hlate : ∀ d, env.delay fn params (bump st.counts (fn, params)).1 = some d → ¬ st.clock + d < l.t) :
     runState env (fuel + 1) states name state data ctx retries st =
       handleErr env fuel states name state data ctx retries execTimeoutName (S "m")
@@ -439,7 +474,7 @@ theorem execution_timeout_exact_task (env : Env) (fuel : Nat) (states : Json) (n
   have h3 : (S "Task" = S "Fail") = False := by decide
   have h4 : (S "Task" = S "Wait") = False := by decide
   have h5 : (S "Task" = S "Choice") = False := by decide
-  have hl' : taskLimit (taskDeadline state st.clock) env.deadline st.clock = some l := by rw [hdl]; exact hl
+  have hl' : taskLimit own env.deadline st.clock = some l := by rw [hdl]; exact hl
   have ha : taskArrival (env.delay fn params (bump st.counts (fn, params)).1) (some l.t) st.clock = some (l.t, true) := by
     cases hd : env.delay fn params (bump st.counts (fn, params)).1 with
     | none => simp [taskArrival]
@@ -447,8 +482,8 @@ theorem execution_timeout_exact_task (env : Env) (fuel : Nat) (states : Json) (n
   have ht := taskLimit_exec_t hl hx
   refine ⟨?_, ht, fun hle => by rw [ht]; exact rmax_of_le hle⟩
   cases htask : l.task with
-  | true => simp [runState, h, h1, h2, h3, h4, h5, hr, hi, hp, hl', ha, hx, htask, taskOutcome, taskEv]
-  | false => simp [runState, h, h1, h2, h3, h4, h5, hr, hi, hp, hl', ha, hx, htask, taskOutcome, taskEv]
+  | true => simp [runState, h, h1, h2, h3, h4, h5, hr, hi, hp, hown, hl', ha, hx, htask, taskOutcome, taskEv]
+  | false => simp [runState, h, h1, h2, h3, h4, h5, hr, hi, hp, hown, hl', ha, hx, htask, taskOutcome, taskEv]
 
 /-- (viii-c) a Retrier grants a re-run that would start at or after the execution's deadline `D`: the state is not
 re-run; the execution fails at `max(D, now)` — nothing is filed, the retry count plays no part any more -/
@@ -691,5 +726,31 @@ theorem late_retry_breaks_no_event_after_deadline :
     (run { failEnv with retryPastDeadline := true } 30 aslXR inT (.obj [])).endTime = 6020 ∧
     ¬ (run { failEnv with retryPastDeadline := true } 30 aslXR inT (.obj [])).endTime ≤ 3000 ∧
     (run failEnv 30 aslXR inT (.obj [])).endTime = 3000 := by decide +kernel
+
+/-! `TimeoutSecondsPath`, `HeartbeatSeconds` -/
+/-- a Task with `TimeoutSecondsPath: "$.a"` on the raw input `{"a": 1}` (and a `TimeoutSeconds: 9` that does not count):
+the worker's first answer would take 1500 ms — timed out at 1000 ms exactly (hypotheses of `own_deadline_path`,
+`task_timeout_exact` through `hown`) -/
+private def tPath : Json := .obj [
+  (k "Type", .str (k "Task")), (k "Resource", .str arnF), (k "TimeoutSecondsPath", .str (k "$.a")), (k "TimeoutSeconds", .num 9),
+  (k "End", .bool true)]
+example : (run envT 20 (.obj [(k "StartAt", .str (k "T")), (k "States", .obj [(k "T", tPath)])]) inT (.obj [])).history =
+      [.execStarted inT, .entered (k "Task") (k "T") inT, .lambdaScheduled inT arnF, .lambdaTimedOut,
+       .execFailed (k "States.Timeout") (some (.str (k "<cause>")))] ∧
+    (run envT 20 (.obj [(k "StartAt", .str (k "T")), (k "States", .obj [(k "T", tPath)])]) inT (.obj [])).times = [0, 0, 0, 1000, 1000] := by
+  decide +kernel
+example : fld tPath "TimeoutSecondsPath" = some (.str (k "$.a")) ∧ applyPath inT (.obj []) (some (k "$.a")) = .ok (.num 1) ∧
+    (match taskOwnDeadline tPath inT (.obj []) 0 with | .ok (some t) => decide (t = 1000) | _ => false) = true :=
+  ⟨by decide, by rfl, by decide +kernel⟩
+/-- … a path that matches nothing is the runtime error, which no Retry / Catch intercepts -/
+example : (match taskOwnDeadline tPath (.obj []) (.obj []) 0 with | .error .pathMatch => true | _ => false) = true := by
+  decide +kernel
+/-- `HeartbeatSeconds` is not implemented by the engine, so it is no part of the semantics: with `HeartbeatSeconds: 1`
+and no `TimeoutSeconds` the worker's 1500 ms are waited for -/
+private def tHb : Json := .obj [
+  (k "Type", .str (k "Task")), (k "Resource", .str arnF), (k "HeartbeatSeconds", .num 1), (k "End", .bool true)]
+example : (run envT 20 (.obj [(k "StartAt", .str (k "T")), (k "States", .obj [(k "T", tHb)])]) inT (.obj [])).status = S "SUCCEEDED" ∧
+    (run envT 20 (.obj [(k "StartAt", .str (k "T")), (k "States", .obj [(k "T", tHb)])]) inT (.obj [])).endTime = 1500 := by
+  decide +kernel
 
 end Asl.C08
